@@ -88,6 +88,7 @@ def build_engine(name, flavour='asan', extra=(), deps=()):
     with Lock('eng-' + name + flavour):
         newest = max(os.path.getmtime(p) for p in
                      [src, os.path.join(HARNESS, 'common.h'), lib] +
+                     [os.path.join(HARNESS, h) for h in os.listdir(HARNESS) if h.endswith('.h')] +
                      [os.path.join(REPO, x) for x in deps])
         if not os.path.exists(exe) or os.path.getmtime(exe) < newest:
             cmd = (['gcc'] + FLAVOURS[flavour].split() +
